@@ -26,3 +26,32 @@ Proof.
   destruct (same_kind a b); unfold push, rbind; cbn; rewrite ?E1; cbn; rewrite ?E2; cbn; (split; [reflexivity | lia]).
 Qed.
 Print Assumptions C18_swap_neutral.
+
+(* ---- the variable pool (proofs in Proofs/Vars.v) and the code / DATA pools ---- *)
+From BL Require Import Mach.Var Proofs.Vars.
+
+(* the pool never holds more than 65536 entries: a new entry is refused beyond that, replacing one never grows it *)
+Theorem C18_variable_pool_bounded : forall vs k v vs', lenN (vs_vars vs) <= 65536 -> update_val vs k v = Ok vs' -> lenN (vs_vars vs') <= 65536.
+Proof. exact update_val_bounded. Qed.
+Print Assumptions C18_variable_pool_bounded.
+
+(* storing 0 or "" frees the slot: the key is gone and the pool did not grow *)
+Theorem C18_default_frees_slot : forall vs k v vs', is_default v = true -> update_val vs k v = Ok vs' ->
+  alist_get k (vs_vars vs') = None /\ (length (vs_vars vs') <= length (vs_vars vs))%nat.
+Proof. exact store_default_frees. Qed.
+Print Assumptions C18_default_frees_slot.
+
+(* the code pool: an instruction beyond 65535 is OUT OF MEMORY; the DATA pool likewise *)
+Theorem C18_code_pool_bounded : forall op l, snd (l_push op l) = Ok tt <-> lenN (l_ops l) + 1 <= 65535.
+Proof.
+  intros op l. unfold l_push, set_ops. cbn. unfold lenN. rewrite app_length. cbn [length]. unfold MAX_POOL.
+  destruct (N.ltb_spec 65535 (N.of_nat (length (l_ops l) + 1))); split; intros H'; try lia; try discriminate; reflexivity.
+Qed.
+Print Assumptions C18_code_pool_bounded.
+
+Theorem C18_data_pool_bounded : forall v l, snd (l_push_data v l) = Ok tt <-> lenN (l_data l) + 1 <= 65535.
+Proof.
+  intros v l. unfold l_push_data, set_data. cbn. unfold lenN. rewrite app_length. cbn [length]. unfold MAX_POOL.
+  destruct (N.ltb_spec 65535 (N.of_nat (length (l_data l) + 1))); split; intros H'; try lia; try discriminate; reflexivity.
+Qed.
+Print Assumptions C18_data_pool_bounded.
